@@ -104,20 +104,59 @@ fn train(prof: &[(u16, u64)]) -> HuffmanContainer<u16> {
 
 // args: p (profile), s0 s1 s2 (item selectors), gen (0: one generation, 1: two generations), outsider (0/1: also try a symbol outside the statistics)
 fn pre_huff(v: &[u64]) -> bool {
-    v[0] < N_PROFILES && v[1] < N_ITEMS && v[2] < N_ITEMS && v[3] < N_ITEMS && v[4] < 2 && v[5] < 2
+    v[0] < N_PROFILES && v[1] < N_ITEMS && v[2] < N_ITEMS && v[3] < N_ITEMS && v[4] < 4 && v[5] < 2 && (v[4] < 2 || (v[2] == v[1] && v[3] == 0))
 }
 fn doms_huff() -> Vec<Vec<u64>> {
-    vec![range(N_PROFILES), range(N_ITEMS), range(N_ITEMS), vec![0, 5, 8], range(2), range(2)]
+    vec![range(N_PROFILES), range(N_ITEMS), range(N_ITEMS), vec![0, 5, 8], range(4), range(2)]
 }
 fn doms_huff_quick() -> Vec<Vec<u64>> {
     // one profile per alphabet size / shape, all item pairs
-    vec![vec![0, 3, 4, 9, 19, 20, 41, 83, 84, 170, 339, 340, 343, 345, 346, 348], range(N_ITEMS), range(N_ITEMS), vec![0, 5], range(2), range(2)]
+    vec![vec![0, 3, 4, 9, 19, 20, 41, 83, 84, 170, 339, 340, 343, 345, 346, 348], range(N_ITEMS), range(N_ITEMS), vec![0, 5], range(4), range(2)]
 }
 fn run_huff(v: &[u64]) {
     let prof = profile(v[0]);
     let alpha: Vec<u16> = prof.iter().map(|x| x.0).collect();
     let t = train(&prof);
-    let mut c = HuffmanContainer::merge_regions(std::iter::once(&t));
+    // a coded container that has not received a symbol yet must fall back to raw storage on clear, like any other
+    {
+        crate::section("VF:huffman.after_clear_not_raw");
+        let mut c0 = HuffmanContainer::merge_regions(std::iter::once(&t));
+        c0.clear();
+        let any = [7u16, 9, alpha[0]];
+        let i = c0.push(any.as_slice());
+        vassert!(i == (0, 3) && c0.index(i).into_owned() == any, "VF:huffman.after_clear_not_raw");
+        let mut c1 = HuffmanContainer::merge_regions(std::iter::once(&t));
+        let _ = c1.push(&[][..]);
+        c1.clear();
+        let i = c1.push(any.as_slice());
+        vassert!(i == (0, 3) && c1.index(i).into_owned() == any, "VF:huffman.after_clear_not_raw");
+    }
+    crate::section("VF:huffman.read_differs_from_pushed");
+    // statistics the code must be optimal for (the sum over all source regions)
+    let mut prof = prof;
+    let mut c = match v[4] {
+        2 => {
+            // two sources over the same alphabet with different count shapes (the second has the counts reversed)
+            let rev: Vec<(u16, u64)> = prof.iter().zip(prof.iter().rev()).map(|(a, b)| (a.0, b.1 + 2 * (a.0 as u64 % 3))).collect();
+            let t2 = train(&rev);
+            for (a, b) in prof.iter_mut().zip(rev.iter()) {
+                a.1 += b.1;
+            }
+            HuffmanContainer::merge_regions([&t, &t2].into_iter())
+        }
+        3 => {
+            // three sources: raw with items, raw empty, coded with items
+            let empty = HuffmanContainer::<u16>::default();
+            let mut coded = HuffmanContainer::merge_regions(std::iter::once(&t));
+            let skew: Vec<u16> = alpha.iter().take(2).flat_map(|s| [*s, *s, *s]).collect();
+            let _ = coded.push(skew.as_slice());
+            for a in prof.iter_mut() {
+                a.1 += skew.iter().filter(|s| **s == a.0).count() as u64;
+            }
+            HuffmanContainer::merge_regions([&t, &empty, &coded].into_iter())
+        }
+        _ => HuffmanContainer::merge_regions(std::iter::once(&t)),
+    };
     if v[4] == 1 {
         // second generation: statistics now come from what was pushed into the coded container
         let mut all = Vec::new();
@@ -180,6 +219,7 @@ fn run_huff(v: &[u64]) {
         }
     }
     // clear falls back to raw storage and round-trips everything
+    crate::section("VF:huffman.after_clear_not_raw");
     c.clear();
     let any = [7u16, 9, alpha[0]];
     let i = c.push(any.as_slice());
@@ -204,13 +244,18 @@ fn run_wrapped(v: &[u64]) {
     let _ = enc.push([alpha[0]].as_slice());
     let (ea, eb) = (enc.push(a.as_slice()), enc.push(b.as_slice()));
     let (ra, rb) = (raw.push(a.as_slice()), raw.push(b.as_slice()));
-    for (x, y) in [(enc.index(ea), enc.index(eb)), (enc.index(ea), raw.index(rb)), (raw.index(ra), enc.index(eb)), (raw.index(ra), raw.index(rb))] {
+    // a second coded container with a different code book over the same alphabet (skewed the other way)
+    let skew: Vec<(u16, u64)> = prof.iter().enumerate().map(|(i, x)| (x.0, 1 + 7 * (i as u64 % 2) + 13 * (i as u64 / (alpha.len() as u64 / 2 + 1)))).collect();
+    let mut other = HuffmanContainer::merge_regions(std::iter::once(&train(&skew)));
+    let (oa, ob) = (other.push(a.as_slice()), other.push(b.as_slice()));
+    for (x, y) in [(enc.index(ea), enc.index(eb)), (enc.index(ea), raw.index(rb)), (raw.index(ra), enc.index(eb)), (raw.index(ra), raw.index(rb)),
+                   (enc.index(ea), other.index(ob)), (other.index(oa), enc.index(eb)), (other.index(oa), other.index(ob)), (other.index(oa), raw.index(rb))] {
         vassert!((x == y) == (a == b), "VF:wrapped.eq");
         vassert!(x.partial_cmp(&y) == a.partial_cmp(&b), "VF:wrapped.partial_cmp");
         vassert!(x.cmp(&y) == a.cmp(&b), "VF:wrapped.cmp");
         vassert!(x.cmp(&y) == y.cmp(&x).reverse(), "VF:wrapped.antisymmetric");
     }
-    vassert!(enc.index(ea) == raw.index(ra) && enc.index(ea) == enc.index(ea), "VF:wrapped.representations_equal");
+    vassert!(enc.index(ea) == raw.index(ra) && enc.index(ea) == enc.index(ea) && enc.index(ea) == other.index(oa) && other.index(oa) == raw.index(ra), "VF:wrapped.representations_equal");
     // IntoOwned laws
     for x in [enc.index(ea), raw.index(ra)] {
         vassert!(x.into_owned() == a, "VF:wrapped.into_owned");
@@ -436,12 +481,47 @@ fn run_dict(v: &[u64]) {
 
 // more than 1024 distinct strings, to cross the heavy-hitter summary's compaction
 fn pre_many(v: &[u64]) -> bool {
-    v[0] < 4 && v[1] < 3 && v[2] < 3 && v[3] < 2
+    v[0] < 4 && v[1] < 3 && v[2] < 3 && v[3] < 3
 }
 fn doms_many() -> Vec<Vec<u64>> {
-    vec![range(4), range(3), range(3), range(2)]
+    vec![range(4), range(3), range(3), range(3)]
 }
 fn run_many(v: &[u64]) {
+    if v[3] == 2 {
+        // a string that is nowhere near the top of any single source but dominates their union
+        let k = [2usize, 3, 4, 3][v[0] as usize];
+        let per = [257usize, 300, 260][v[1] as usize];
+        let hot: &[u8] = [&b"hot!"[..], &b"\xffhot"[..], &b"\x01hot"[..]][v[2] as usize];
+        let mut sources = Vec::new();
+        for src in 0..k {
+            let mut s = CR::default();
+            let mut iss = Vec::new();
+            for i in 0..per {
+                let x = vec![b'k', src as u8, (i % 251) as u8, (i / 251) as u8];
+                for _ in 0..3 {
+                    vassert!(push_checked(&mut s, &x, &mut iss), "VF:dictionary.untrained_refused_nonempty");
+                }
+            }
+            for _ in 0..2 {
+                vassert!(push_checked(&mut s, hot, &mut iss), "VF:dictionary.untrained_refused_nonempty");
+            }
+            sources.push(s);
+        }
+        if k * 2 <= 3 {
+            return; // (with two sources the hot string only ties with the local ones)
+        }
+        let mut m = CR::merge_regions(sources.iter());
+        let mut issued = Vec::new();
+        let before = used_bytes(&m);
+        if push_checked(&mut m, hot, &mut issued) {
+            vassert!(used_bytes(&m) - before == 1, "VF:dictionary.heavy_hitter_not_one_byte");
+        }
+        for i in (0..per).step_by(37) {
+            let x = vec![b'k', 0u8, (i % 251) as u8, (i / 251) as u8];
+            let _ = push_checked(&mut m, &x, &mut issued);
+        }
+        return;
+    }
     let n = [1023usize, 1024, 1500, 2600][v[0] as usize];
     let mut s = CR::default();
     let mut iss = Vec::new();
@@ -537,6 +617,39 @@ fn run_ccm(v: &[u64]) {
         vassert!(i0 == 0, "VF:columns_coded.merge_index");
         let r0 = m.index(i0);
         vassert!(r0.len() == 2 && r0.get(0) == a && r0.get(1) == b, "VF:columns_coded.merge_read");
+        // reserve_regions on coded columns is invisible: same outcomes as a twin that never reserved, whatever columns the
+        // reservation had to create
+        crate::section("VF:columns_coded.reserve");
+        for prefill in 0..2 {
+            let mut t = R::default();
+            let mut twin = R::default();
+            if prefill == 1 {
+                let _ = t.push(vec![a]);
+                let _ = twin.push(vec![a]);
+            }
+            match v[0] {
+                0 => t.reserve_regions([&narrow, &wide].into_iter()),
+                1 => t.reserve_regions([&wide, &narrow].into_iter()),
+                2 => t.reserve_regions([&narrow, &wide, &narrow].into_iter()),
+                _ => t.reserve_regions([&wide].into_iter()),
+            }
+            let rows: [Vec<&[u8]>; 4] = [vec![a, b], vec![b"\x00zz", b"\x00zz", b"\x01q"], vec![a], vec![b"\x01", b"\x00"]];
+            for row in rows.iter() {
+                let want = catch_unwind(AssertUnwindSafe(|| {
+                    let i = twin.push(row.clone());
+                    (i, (0..row.len()).map(|k| twin.index(i).get(k).to_vec()).collect::<Vec<_>>())
+                }));
+                let got = catch_unwind(AssertUnwindSafe(|| {
+                    let i = t.push(row.clone());
+                    (i, (0..row.len()).map(|k| t.index(i).get(k).to_vec()).collect::<Vec<_>>())
+                }));
+                match (want, got) {
+                    (Ok(w), Ok(g)) => vassert!(w == g, "VF:columns_coded.reserve.changed_push_outcome"),
+                    (Ok(_), Err(_)) => vassert!(false, "VF:columns_coded.reserve.push_refused_after_reserve"),
+                    _ => {}
+                }
+            }
+        }
     }
 }
 
@@ -695,11 +808,11 @@ fn run_ccomp(v: &[u64]) {
 pub fn harnesses() -> Vec<H> {
     vec![
         H { name: "huffman_quick", props: &["C06", "C01", "C02", "C08", "C10"], nargs: 6, pre: pre_huff, doms: doms_huff_quick, run: run_huff, panic_ok: false,
-            bound: "16 frequency profiles (1..4 symbols with counts 1..4, Fibonacci 10/16/21 symbols, 257/600 equiprobable u16) x all pairs of 12 item shapes (empty .. 24 symbols; every start/end bit offset; 0,1,2+ whole bytes) + third item in {empty, 8 symbols} x 1-2 merge generations x symbol outside the statistics", kani: false },
+            bound: "16 frequency profiles (1..4 symbols with counts 1..4, Fibonacci 10/16/21 symbols, 257/600 equiprobable u16) x all pairs of 12 item shapes (empty .. 24 symbols; every start/end bit offset; 0,1,2+ whole bytes) + third item in {empty, 8 symbols} x {one source; two generations; two sources over the same alphabet with different count shapes; three sources raw/empty/coded} x symbol outside the statistics; clear of a coded container before its first symbol", kani: false },
         H { name: "huffman_full", props: &["C06"], nargs: 6, pre: pre_huff, doms: doms_huff, run: run_huff, panic_ok: false,
             bound: "all 340 profiles over alphabets of 1..4 symbols with counts 1..4, Fibonacci-skewed 10..21 symbols (codes to 20 bits), 257/300/600 equiprobable u16 symbols x all pairs of 12 item shapes x third item in {empty, 8, 17 symbols} x 1-2 merge generations x outsider symbol (thorough tier)", kani: false },
         H { name: "columns_coded_merge", props: &["C10"], nargs: 2, pre: pre_ccm, doms: doms_ccm, run: run_ccm, panic_ok: false,
-            bound: "ColumnsRegion<HuffmanContainer<u8>> and ColumnsRegion<CodecRegion<DictionaryCodec>>: merge_regions over a one-column and a two-column source in the orders [narrow, wide], [wide, narrow], [narrow, wide, narrow], [wide]; rows covered by the sources' statistics must be accepted and read back", kani: false },
+            bound: "ColumnsRegion<HuffmanContainer<u8>> and ColumnsRegion<CodecRegion<DictionaryCodec>>: merge_regions over a one-column and a two-column source in the orders [narrow, wide], [wide, narrow], [narrow, wide, narrow], [wide]; rows covered by the sources' statistics must be accepted and read back; dictionary columns: reserve_regions from the same source sets on an empty / one-row target, then four rows (incl. literals starting with bytes 0 and 1) compared with a twin that never reserved", kani: false },
         H { name: "huffman_after_clear", props: &["C06", "C08"], nargs: 2, pre: pre_hclear, doms: doms_hclear, run: run_hclear, panic_ok: false,
             bound: "HuffmanContainer<u16>: 50 occurrences of a foreign symbol pushed into a raw or coded container, clear, then exactly one of 7 profiles, merge: code cost equals the reference for that profile alone and the foreign symbol is refused", kani: false },
         H { name: "codec_clone", props: &["C09"], nargs: 4, pre: pre_hclone, doms: doms_hclone, run: run_hclone, panic_ok: false,
@@ -707,7 +820,7 @@ pub fn harnesses() -> Vec<H> {
         H { name: "coded_composites_merge", props: &["C10", "C01"], nargs: 2, pre: pre_ccomp, doms: doms_ccomp, run: run_ccomp, panic_ok: false,
             bound: "TupleABRegion<HuffmanContainer<u8>, CodecRegion<DictionaryCodec>> and ResultRegion<..>: merge_regions over 1 or 2 source regions, then rows covered by the passed sources' statistics must be accepted and read back", kani: false },
         H { name: "huffman_wrapped", props: &["C14", "C15"], nargs: 4, pre: pre_wrapped, doms: doms_wrapped, run: run_wrapped, panic_ok: false,
-            bound: "Wrapped items, raw versus Huffman-encoded, 7 profiles x all pairs of 12 item shapes x 4 clone_onto targets: ==, partial_cmp, cmp against the owned vectors; into_owned / clone_onto / borrow_as; region-to-region push", kani: false },
+            bound: "Wrapped items, raw versus Huffman-encoded under two different code books, 7 profiles x all pairs of 12 item shapes x 4 clone_onto targets: ==, partial_cmp, cmp against the owned vectors; into_owned / clone_onto / borrow_as; region-to-region push", kani: false },
         H { name: "huffman_forms", props: &["C20"], nargs: 2, pre: pre_hforms, doms: doms_hforms, run: run_hforms, panic_ok: false,
             bound: "HuffmanContainer<u16> raw and coded, 4 profiles: [B;N], &[B;N], Vec<B>, &Vec<B>, raw and encoded read items of another container versus &[B] on twins in the same state (indices, reads), and the next generation merged from each twin (index and read of a probe)", kani: false },
         H { name: "dictionary_quick", props: &["C07", "C01", "C02", "C04", "C08", "C10"], nargs: 7, pre: pre_dict, doms: doms_dict_quick, run: run_dict, panic_ok: false,
@@ -715,6 +828,6 @@ pub fn harnesses() -> Vec<H> {
         H { name: "dictionary_full", props: &["C07"], nargs: 7, pre: pre_dict, doms: doms_dict, run: run_dict, panic_ok: false,
             bound: "CodecRegion<DictionaryCodec>: 8 x 3 training sets over 1..2 source regions; probes: all 256 one-byte strings, dictionary entries, their prefixes/extensions, strings whose first byte is an assigned tag, the empty string (268 probes x 5); second merge generation; clear; every push refused or read back exactly, heavy hitters cost 1 byte", kani: false },
         H { name: "dictionary_many", props: &["C07"], nargs: 4, pre: pre_many, doms: doms_many, run: run_many, panic_ok: false,
-            bound: "1023 / 1024 / 1500 / 2600 distinct strings plus a heavy hitter at 1/2, 1/3, 1/4 of the pushes that sorts before / between / after them (crosses MisraGries::tidy), one or two source regions, merged, then probed", kani: false },
+            bound: "1023 / 1024 / 1500 / 2600 distinct strings plus a heavy hitter at 1/2, 1/3, 1/4 of the pushes that sorts before / between / after them (crosses MisraGries::tidy), one or two source regions, merged, then probed; and 3-4 source regions with 257/260/300 private strings (x3) each plus a shared string (x2) that dominates only their union", kani: false },
     ]
 }
